@@ -246,15 +246,42 @@ class LoopSpec(object):
             self.after(I, fr, it)
 
 
+class Sel(object):
+    """selects one loop of a function by what it looks like (kind, text its header must / must not contain, text its body must
+    contain) instead of by position, so that adding or removing an unrelated loop does not attach a contract to the wrong loop"""
+
+    def __init__(self, kind=None, header=(), not_header=(), body=(), not_body=()):
+        self.kind = kind
+        self.header, self.not_header, self.body, self.not_body = tuple(header), tuple(not_header), tuple(body), tuple(not_body)
+
+    def matches(self, mod, n):
+        if self.kind == 'while' and not isinstance(n, ast.While):
+            return False
+        if self.kind == 'for' and not isinstance(n, ast.For):
+            return False
+        head = mod.segment(n.test) if isinstance(n, ast.While) else ((mod.segment(n.target) or '') + ' in ' + (mod.segment(n.iter) or ''))
+        head = head or ''
+        body = '\n'.join((mod.segment(b) or '') for b in n.body)
+        return all(h in head for h in self.header) and not any(h in head for h in self.not_header) and \
+            all(b in body for b in self.body) and not any(b in body for b in self.not_body)
+
+
 def loop_table(mod, qualname, specs):
-    """{ordinal: LoopSpec} -> table understood by Interp.find_loop_spec"""
+    """{ordinal or Sel: LoopSpec} -> table understood by Interp.find_loop_spec"""
     fn, ci = mod.find(qualname)
     if fn is None:
         raise Undecided('function %s not found in %s' % (qualname, mod.relpath))
-    d = dict(specs)
-    d['__fn__'] = fn
-    nloops = len([n for n in ast.walk(fn) if isinstance(n, (ast.For, ast.While))])
-    for k in specs:
-        if k >= nloops:
-            raise Undecided('%s has no loop #%d any more' % (qualname, k))
+    loops = [n for n in ast.walk(fn) if isinstance(n, (ast.For, ast.While))]
+    loops.sort(key=lambda n: (n.lineno, n.col_offset))
+    d = {'__fn__': fn}
+    for k, spec in specs.items():
+        if isinstance(k, Sel):
+            hits = [i for i, n in enumerate(loops) if k.matches(mod, n)]
+            if len(hits) != 1:
+                raise Undecided('%s: loop under contract %s not identified (%d candidates): the function was restructured' % (qualname, spec.name, len(hits)))
+            d[hits[0]] = spec
+        else:
+            if k >= len(loops):
+                raise Undecided('%s has no loop #%d any more' % (qualname, k))
+            d[k] = spec
     return d
